@@ -109,6 +109,9 @@ def build_elig_frame(elig, rename=None, id_int=False):
     df = df[['geo'] + list(elig['col_order'])] if elig.get('as_index') or sum(map(ord, elig['col_order'][0])) % 2 else df[list(elig['col_order']) + ['geo']]
   if elig.get('as_index'):
     df = df.set_index('geo')
+  elif elig.get('row_labels'):
+    n = len(df)
+    df.index = [n - 1 - i for i in range(n)] if elig['row_labels'] == 'reversed' else [3 * i + 2 for i in range(n)]
   return df
 
 
